@@ -3,7 +3,7 @@ import json
 import os
 
 from common import Inconclusive, add_violations_from_bad, finish, log
-from statechecks import count_events, parse_hist, shard, validate_parallel
+from statechecks import require_actions, count_events, parse_hist, shard, validate_parallel
 
 GEN_CFG = """SPECIFICATION %(spec)s
 CONSTANTS
@@ -47,13 +47,14 @@ def run(ctx):
         base = ctx.tlc("Mpt", cfg="Mpt_quick.cfg")
     else:
         base = ctx.tlc("Mpt", cfg="Mpt.cfg", coverage=True, timeout=1500)
+    require_actions(base, ["Update", "Del", "Get", "HashOnly", "Commit", "Reopen", "SetLimit"])
     # 2. TLC-generated histories (model -> code)
     runs = []
     if quick:
-        universes = [([1, 2, 3, 4, 6], [1, 7]), ([5, 6, 7, 8], [4, 6])]
+        universes = [([1, 2, 3, 4, 6], [1, 7]), ([6, 7, 8], [4, 6])]
         deep = [([1, 2, 3, 4, 5, 6, 7, 8], [1, 2, 3, 4, 5, 6, 7, 8], 150, 30)]
     else:
-        universes = [([1, 2, 3, 4, 5, 6, 7], [1, 7]), ([1, 2, 3, 4, 6], [2, 3, 4]), ([2, 3, 5, 6, 7, 8], [5, 6, 8])]
+        universes = [([1, 2, 3, 4, 5, 6], [1, 7]), ([1, 2, 3, 4, 6], [2, 3, 4]), ([2, 3, 6, 7, 8], [5, 8])]
         deep = [([1, 2, 3, 4, 5, 6, 7, 8], [1, 2, 3, 4, 5, 6, 7, 8], 3000, 40),
                 ([2, 3, 4, 5], [3, 4, 5, 6], 1500, 40)]
     hists, gens = [], []
@@ -69,7 +70,7 @@ def run(ctx):
     n_deep = len(hists) - n_edges
     log("histories: %d model edges, %d simulated" % (n_edges, n_deep))
     drv = ctx.build("c02")
-    shards = shard(hists, 8 if quick else 48)
+    shards = shard(hists, 8 if quick else 64)
     argvs, traces = [], []
     for k, part in enumerate(shards):
         sp = os.path.join(ctx.scratch, "script%d.json" % k)
